@@ -81,6 +81,7 @@ type Contract struct {
 var reHead = regexp.MustCompile(`^(func|iface)\s+(.*)$`)
 var reTagged = regexp.MustCompile(`^(safety|requires|ensures|canary)(\[[A-Za-z0-9!, ]*\])?\s*(.*)$`)
 var reAssert = regexp.MustCompile(`^assert(\[[A-Za-z0-9!, ]*\])?\s+after\s+([A-Za-z_][A-Za-z0-9_]*)\s*:\s*(.*)$`)
+var reAssertSel = regexp.MustCompile(`^assert(\[[A-Za-z0-9!, ]*\])?\s+at\s+select\s+(\d+)\s*:\s*(.*)$`)
 var reLoop = regexp.MustCompile(`^loop\s+(\d+)\s+(invariant|modifies|decreases)(\[[A-Za-z0-9!, ]*\])?\s+(.*)$`)
 
 func parseTags(s string) []string {
@@ -113,6 +114,13 @@ type ContractSet struct {
 	Files  []string
 	Macros map[string]*Macro
 	Groups map[string][]string
+	GlobalFacts map[string][]*GlobalFact
+}
+
+type GlobalFact struct {
+	Name string
+	Text string
+	E    Expr
 }
 
 type Macro struct {
@@ -211,6 +219,23 @@ func (cs *ContractSet) loadFile(path string, ext bool) error {
 			pkg = strings.TrimSpace(body[len("package "):])
 			continue
 		}
+		if strings.HasPrefix(body, "global ") {
+			// global Name: expr   (assumed fact about a package-level variable that only the
+			// package initialiser assigns; Name is usable in expr)
+			rest := strings.TrimSpace(body[len("global "):])
+			i := strings.Index(rest, ":")
+			if i < 0 || pkg == "" {
+				return fmt.Errorf("%s:%d: bad global clause", path, lineNo)
+			}
+			gf := &GlobalFact{Name: strings.TrimSpace(rest[:i]), Text: strings.TrimSpace(rest[i+1:])}
+			if cs.GlobalFacts == nil {
+				cs.GlobalFacts = map[string][]*GlobalFact{}
+			}
+			k := pkg + "." + gf.Name
+			cs.GlobalFacts[k] = append(cs.GlobalFacts[k], gf)
+			lastText = &gf.Text
+			continue
+		}
 		if strings.HasPrefix(body, "modifies-group ") {
 			// modifies-group NAME = key1, key2, @OTHER   (used as: modifies @NAME)
 			rest := strings.TrimSpace(body[len("modifies-group "):])
@@ -280,6 +305,13 @@ func (cs *ContractSet) loadFile(path string, ext bool) error {
 				continue
 			}
 			return fmt.Errorf("%s:%d: clause outside func: %s", path, lineNo, body)
+		}
+		if m := reAssertSel.FindStringSubmatch(body); m != nil {
+			cl := &Clause{Kind: "assert", Tags: parseTags(m[1]), Text: m[3], After: "select:" + m[2], File: path, LineNo: lineNo}
+			cl.Ord = len(cur.Asserts) + 1
+			cur.Asserts = append(cur.Asserts, cl)
+			lastText = &cl.Text
+			continue
 		}
 		if m := reAssert.FindStringSubmatch(body); m != nil {
 			cl := &Clause{Kind: "assert", Tags: parseTags(m[1]), Text: m[3], After: m[2], File: path, LineNo: lineNo}
@@ -386,6 +418,15 @@ func parseModifies(s string, loop int) (Modifies, error) {
 
 // finish parses all clause expressions.
 func (cs *ContractSet) finish() error {
+	for _, l := range cs.GlobalFacts {
+		for _, g := range l {
+			e, err := parseExpr(g.Text)
+			if err != nil {
+				return fmt.Errorf("global %s: %v", g.Name, err)
+			}
+			g.E = e
+		}
+	}
 	for _, m := range cs.Macros {
 		e, err := parseExpr(m.Text)
 		if err != nil {
